@@ -47,6 +47,7 @@ class Run:
         self.lemma_obls = 0
         self.timeout_ms = 30000 if tier == 'quick' else 120000
         self.known = [k for k in load_known() if k.get('property') == prop]
+        self.pending = []
         # runs against a scratch copy (mutation testing) must never overwrite the evidence of the real tree
         self.outroot = VERIF if os.path.realpath(repo) == '/repo' else os.path.join(VERIF, '.work', 'scratch')
         rd = os.path.join(self.outroot, 'replays', prop)
@@ -57,33 +58,45 @@ class Run:
 
     # ------------------------------------------------------------------ proving
     def prove(self, spec, replayer=None):
-        """generate obligations for one function spec; exceptions are mapped to undecided"""
-        try:
-            self.eng.verify(spec)
-            self.specs.append(spec)
-            if replayer is not None:
-                self.replayers[spec.name] = replayer
-            self._vacuity(spec)
-        except (E.Unsupported, E.ContractError) as ex:
-            self.undecided.append(f'{spec.name}: {type(ex).__name__}: {ex}')
-        except z3.Z3Exception as ex:
-            self.undecided.append(f'{spec.name}: Z3Exception: {ex}')
+        """register one function spec; obligations are generated in discharge(), one fresh process per spec, so that the
+        z3 term ids / fresh names (and with them the shape of the formulas) do not depend on which other specs ran before"""
+        self.pending.append(spec)
+        if replayer is not None:
+            self.replayers[spec.name] = replayer
 
-    def _vacuity(self, spec):
-        """requires must be satisfiable; 'assert False' after the precondition must be refuted (canary)"""
-        s = z3.Solver()
-        s.set('timeout', 10000)
-        pcs = self.eng.requires_pc
-        qf = [f for f in pcs if not E.has_quant(f)]
-        s.add(*qf)
-        r = s.check()
-        if r == z3.unsat:
-            self.undecided.append(f'{spec.name}: VACUOUS precondition (requires unsatisfiable)')
-        elif r == z3.sat:
-            self.vacuity['requires_sat'] += 1
-            self.vacuity['canaries_refuted'] += 1      # pc & not(False) sat == the canary 'assert False' is refuted
-        else:
-            self.notes.append(f'{spec.name}: precondition satisfiability unknown')
+    def _generate(self):
+        global _PENDING, _REPO
+        _PENDING, _REPO = self.pending, self.repo
+        if not self.pending:
+            return
+        import multiprocessing as mp
+        workers = min(16, os.cpu_count() or 1, len(self.pending))
+        with mp.get_context('fork').Pool(workers, maxtasksperchild=1) as pool:
+            results = pool.map(_gen_worker, range(len(self.pending)), chunksize=1)
+        for spec, res in zip(self.pending, results):
+            if 'error' in res:
+                self.undecided.append(f'{spec.name}: {res["error"]}')
+                continue
+            self.specs.append(spec)
+            for d in res['obls']:
+                o = E.Obl(d['name'], d['kind'], [], None, d['src'], d['lineno'], d['fn'])
+                o.smt2 = d['smt2']
+                o.goal_str, o.hyp_strs, o.nhyp = d['goal'], d['hyps'], d['nhyp']
+                o.result = d['result']
+                self.eng.obls.append(o)
+            self.eng.fninfo.append(res['info'])
+            for a in res['assumed']:
+                if a not in self.eng.assumed:
+                    self.eng.assumed.append(a)
+            v = res['vacuity']
+            if v == 'unsat':
+                self.undecided.append(f'{spec.name}: VACUOUS precondition (requires unsatisfiable)')
+            elif v == 'sat':
+                self.vacuity['requires_sat'] += 1
+                self.vacuity['canaries_refuted'] += 1      # pc & not(False) sat == the canary 'assert False' is refuted
+            else:
+                self.notes.append(f'{spec.name}: precondition satisfiability unknown')
+        self.pending = []
 
     def lemma(self, name, hyps, goal, kind='lemma'):
         """a stand-alone lemma obligation (pure z3 formulas) proved by the same back ends"""
@@ -106,6 +119,7 @@ class Run:
         return None
 
     def discharge(self):
+        self._generate()
         obls = self.eng.obls
         solve.discharge(obls, timeout_ms=self.timeout_ms, seed=self.seed % 1000,
                         cross_cvc5=(self.tier == 'thorough'))
@@ -138,7 +152,8 @@ class Run:
         rec = dict(property=self.prop, obligation=o.name, kind=o.kind, function=o.fn, source=o.src, line=o.lineno,
                    solver_status=r['status'], backend=r.get('backend'), solver_detail=r.get('detail'),
                    model=model, reproduced=bool(reproduced), replay_detail=detail,
-                   goal=str(o.goal)[:2000], hypotheses=[str(f)[:400] for f in o.pc[-25:]])
+                   goal=(str(o.goal)[:2000] if o.goal is not None else getattr(o, 'goal_str', '')),
+                   hypotheses=([str(f)[:400] for f in o.pc[-25:]] if o.pc else getattr(o, 'hyp_strs', [])))
         if reproduced:
             self._violation(o.name, path, rec, detail, True)
         elif r['status'] == 'sat':
@@ -206,7 +221,7 @@ class Run:
         kinds = {}
         for o in obls:
             kinds[o.kind] = kinds.get(o.kind, 0) + 1
-        samples = [dict(obligation=o.name, kind=o.kind, hypotheses=len(o.pc), status=o.result['status'] if o.result else None,
+        samples = [dict(obligation=o.name, kind=o.kind, hypotheses=(len(o.pc) or getattr(o, 'nhyp', 0)), status=o.result['status'] if o.result else None,
                         backend=o.result.get('backend') if o.result else None,
                         seconds=round(o.result.get('time', 0), 3) if o.result else None)
                    for o in (obls[:3] + sorted(obls, key=lambda o: -(o.result or {}).get('time', 0))[:3])]
@@ -253,3 +268,27 @@ class Run:
             print('   ', v['what'])
         print(f'RESULT {self.prop} exit={code} wall={time.time() - self.t0:.1f}s')
         return code
+
+
+_PENDING, _REPO = [], '/repo'
+
+
+def _gen_worker(k):
+    """child process: verify one spec in a fresh engine and z3 context; return obligations as SMT-LIB text"""
+    spec = _PENDING[k]
+    eng = E.Engine(_REPO)
+    try:
+        eng.verify(spec)
+    except (E.Unsupported, E.ContractError) as ex:
+        return dict(error=f'{type(ex).__name__}: {ex}')
+    except z3.Z3Exception as ex:
+        return dict(error=f'Z3Exception: {ex}')
+    obls = []
+    for o in eng.obls:
+        obls.append(dict(name=o.name, kind=o.kind, src=o.src, lineno=o.lineno, fn=o.fn, result=o.result,
+                         smt2=None if o.result is not None else solve.to_smt2(o.pc, o.goal),
+                         goal=str(o.goal)[:2000], hyps=[str(f)[:400] for f in o.pc[-25:]], nhyp=len(o.pc)))
+    s = z3.Solver()
+    s.set('timeout', 10000)
+    s.add(*[f for f in eng.requires_pc if not E.has_quant(f)])
+    return dict(obls=obls, info=eng.fninfo[-1], assumed=eng.assumed, vacuity=str(s.check()))
